@@ -225,8 +225,8 @@ package plugin
 //@   requires c != nil && c.config != nil && c.address != nil && held(c.l)
 //@   modifies conns_open, yopens, yaccepts, tokens
 //@   at call NewRPCClient#1 assert arg1 == c.config.Plugins   [C02.plugins]
-//@   at call NewRPCClient#1 assert c.config.TLSConfig != nil ==> tls_cfg(arg0) == c.config.TLSConfig   [C12.wrap]
-//@   at call NewRPCClient#1 assert c.config.TLSConfig == nil ==> tls_cfg(arg0) == nil   [C12.wrap]
+//@   at call NewRPCClient#1 assert c.config.TLSConfig != nil ==> tls_cfg(arg0) == c.config.TLSConfig   [C12.wrap] [C14.tls]
+//@   at call NewRPCClient#1 assert c.config.TLSConfig == nil ==> tls_cfg(arg0) == nil   [C12.wrap] [C14.tls]
 //@   at call (*RPCClient).SyncStreams#1 assert arg0 == c.config.SyncStdout && arg1 == c.config.SyncStderr   [C11.wire-r]
 //@   ensures result1 != nil ==> result0 == nil
 //@   ensures result1 == nil ==> result0 != nil
@@ -246,8 +246,8 @@ package plugin
 //@   nonblocking
 //@   requires c != nil && valid_client(c) && c.address != nil && held(c.l)
 //@   modifies c.grpcMuxer, fields(c.grpcMuxerOnce), conns_open, $LOG, creg, yopens, yaccepts
-//@   at call dialGRPCConn#1 assert arg0 == c.config.TLSConfig   [C12.wrap]
-//@   at call newGRPCBroker#1 assert arg1 == c.config.TLSConfig   [C12.wrap]
+//@   at call dialGRPCConn#1 assert arg0 == c.config.TLSConfig   [C12.wrap] [C14.tls]
+//@   at call newGRPCBroker#1 assert arg1 == c.config.TLSConfig   [C12.wrap] [C14.tls]
 //@   at call newGRPCStdioClient#1 assert arg0 == doneCtx   [C03.e]
 //@   at go#3 assert arg1 == c.config.SyncStdout && arg2 == c.config.SyncStderr   [C11.wire-g]
 //@   ensures result1 != nil ==> result0 == nil
@@ -832,7 +832,7 @@ package plugin
 //@   nopanic [C07.total]
 //@   nonblocking
 //@   modifies nothing
-//@   ensures result != nil && fresh(result) && result.streamer == s && result.tls == tls && result.muxer == muxer && result.addrTranslator == addrTranslator && result.doneCh != nil && !closed(result.doneCh) && !held(result.Mutex) && !held(result.dialMutex)   [C07.new] [C12.wrap]
+//@   ensures result != nil && fresh(result) && result.streamer == s && result.tls == tls && result.muxer == muxer && result.addrTranslator == addrTranslator && result.doneCh != nil && !closed(result.doneCh) && !held(result.Mutex) && !held(result.dialMutex)   [C07.new] [C12.wrap] [C14.tls]
 //@   ensures result.clientStreams != nil && result.serverStreams != nil && (forall k :: !(k in result.clientStreams) && !(k in result.serverStreams))   [C07.new]
 
 //@ func (*GRPCBroker).getClientStream
@@ -973,8 +973,8 @@ package plugin
 //@   modifies heap_fresh
 //@   ensures result1 != nil ==> result0 == nil
 //@   ensures result1 == nil ==> result0 != nil && fresh(result0)
-//@   at call grpc.WithInsecure#1 assert tls == nil   [C12.wrap]
-//@   at call credentials.NewTLS#1 assert arg0 == tls && tls != nil   [C12.wrap]
+//@   at call grpc.WithInsecure#1 assert tls == nil   [C12.wrap] [C14.tls]
+//@   at call credentials.NewTLS#1 assert arg0 == tls && tls != nil   [C12.wrap] [C14.tls]
 //@   at call grpc.WithDialer#1 assert arg0 == dialer   [C07.dial]
 //@   at call append#5 assert len(arg1) == 2 && arg1[0] == dialopt_call(callopt_recv(2147483647)) && arg1[1] == dialopt_call(callopt_send(2147483647))   [C14.size]
 
@@ -1006,8 +1006,8 @@ package plugin
 //@   after call (*GRPCBroker).getClientStream#1 assume !closed(ret.doneCh)
 //@   after select#1 bind ci := recv0
 //@   after call (grpcmux.GRPCMuxer).Enabled#1 bind dmux: Bool := ret
-//@   at call dialGRPCConn#1 assert arg0 == b.tls   [C12.wrap]
-//@   at call dialGRPCConn#2 assert arg0 == b.tls   [C12.wrap]
+//@   at call dialGRPCConn#1 assert arg0 == b.tls   [C12.wrap] [C14.tls]
+//@   at call dialGRPCConn#2 assert arg0 == b.tls   [C12.wrap] [C14.tls]
 //@   at call close#1 assert ci != nil && ci.ServiceId == id   [C07.dial]
 //@   at call net.ResolveTCPAddr#1 assert b.addrTranslator == nil ==> arg1 == ci.Address   [C07.dial]
 //@   at call net.ResolveTCPAddr#1 assert b.addrTranslator != nil ==> arg1 == p2h_addr(b.addrTranslator, ci.Network, ci.Address)   [C07.dial]
@@ -1025,9 +1025,9 @@ package plugin
 //@   after call (*GRPCBroker).Accept#1 bind aln: Iface := ret0
 //@   after call (*GRPCBroker).Accept#1 bind aerr: Iface := ret1
 //@   at call (*GRPCBroker).Accept#1 assert arg0 == id   [C07.serve]
-//@   at call credentials.NewTLS#1 assert arg0 == b.tls && b.tls != nil   [C12.wrap]
-//@   at call param:newGRPCServer#1 assert b.tls == nil ==> len(arg0) == 0   [C12.wrap]
-//@   at call param:newGRPCServer#1 assert b.tls != nil ==> len(arg0) == 1 && arg0[0] == srvopt_creds(creds_tls(b.tls))   [C12.wrap]
+//@   at call credentials.NewTLS#1 assert arg0 == b.tls && b.tls != nil   [C12.wrap] [C14.tls]
+//@   at call param:newGRPCServer#1 assert b.tls == nil ==> len(arg0) == 0   [C12.wrap] [C14.tls]
+//@   at call param:newGRPCServer#1 assert b.tls != nil ==> len(arg0) == 1 && arg0[0] == srvopt_creds(creds_tls(b.tls))   [C12.wrap] [C14.tls]
 //@   at call (*run.Group).Add#1 assert true
 //@   ensures aerr == nil ==> lsn == old(lsn)   [C18.broker] [C07.serve]
 //@   ensures aerr != nil ==> lsn == old(lsn)   [C18.broker]
@@ -1255,14 +1255,14 @@ package plugin
 //@   after call x509.NewCertPool#1 bind pool: Ref := ret
 //@   at store tls.Config.ClientAuth#1 bind tc: Ref := object
 //@   at call (*x509.CertPool).AppendCertsFromPEM#1 assert recv == pool && str(arg0) == getenv("PLUGIN_CLIENT_CERT")   [C12.server]
-//@   at call (ServerProtocol).Init#1 assert tlsConfig != nil && pt == "netrpc" ==> tls_cfg(listener) == tlsConfig   [C12.wrap]
-//@   at call (ServerProtocol).Init#1 assert tlsConfig != nil && pt == "grpc" ==> unbox(server, "*GRPCServer").TLS == tlsConfig   [C12.wrap]
+//@   at call (ServerProtocol).Init#1 assert tlsConfig != nil && pt == "netrpc" ==> tls_cfg(listener) == tlsConfig   [C12.wrap] [C14.tls]
+//@   at call (ServerProtocol).Init#1 assert tlsConfig != nil && pt == "grpc" ==> unbox(server, "*GRPCServer").TLS == tlsConfig   [C12.wrap] [C14.tls]
 //@   after call (ServeConfig).TLSProvider#1 bind ptls: Ref := ret0
 //@   at call (ServerProtocol).Init#1 assert opts.TLSProvider != nil && ptls == nil && getenv("PLUGIN_CLIENT_CERT") != "" ==> tlsConfig != nil && tlsConfig == tc && tc.ClientAuth == 4 && tc.ClientCAs == pool   [C12.server]
 //@   at call (ServerProtocol).Init#1 assert opts.TLSProvider != nil && ptls != nil ==> tlsConfig == ptls   [C12.server]
 //@   at call (ServerProtocol).Init#1 assert opts.TLSProvider == nil && getenv("PLUGIN_CLIENT_CERT") != "" ==> tlsConfig != nil && tlsConfig == tc && tc.ClientAuth == 4 && tc.ClientCAs == pool && pool_pem(pool) == getenv("PLUGIN_CLIENT_CERT") && tc.MinVersion >= 771   [C12.server]
 //@   at call (ServerProtocol).Init#1 assert opts.TLSProvider == nil && getenv("PLUGIN_CLIENT_CERT") == "" ==> tlsConfig == nil   [C12.server]
-//@   at call (ServerProtocol).Serve#1 assert arg0 == listener && recv == server   [C12.wrap]
+//@   at call (ServerProtocol).Serve#1 assert arg0 == listener && recv == server   [C12.wrap] [C14.tls]
 //@   at call (ServerProtocol).Init#1 assert (pt == "netrpc" ==> typeis(server, "*RPCServer")) && (pt == "grpc" ==> typeis(server, "*GRPCServer")) && recv == server   [C14.proto] [C02.serve]
 //@   at call (ServerProtocol).Init#1 assert pt == "netrpc" ==> unbox(server, "*RPCServer").Plugins == pset   [C02.serve]
 //@   at call (ServerProtocol).Init#1 assert pt == "grpc" ==> unbox(server, "*GRPCServer").Plugins == pset && unbox(server, "*GRPCServer").Server == opts.GRPCServer   [C02.serve]
@@ -1372,8 +1372,8 @@ package plugin
 //@   nonblocking
 //@   requires s.Server != nil && s.logger != nil && s.Stdout != nil && s.Stderr != nil && !held(s.brokerLock)
 //@   modifies s.server, s.broker, s.stdioServer, heap_fresh
-//@   at call (GRPCServer).Server#1 assert s.TLS != nil ==> len(arg0) == 1 && arg0[0] == srvopt_creds(creds_tls(s.TLS))   [C12.wrap]
-//@   at call newGRPCBroker#1 assert arg1 == s.TLS   [C12.wrap]
+//@   at call (GRPCServer).Server#1 assert s.TLS != nil ==> len(arg0) == 1 && arg0[0] == srvopt_creds(creds_tls(s.TLS))   [C12.wrap] [C14.tls]
+//@   at call newGRPCBroker#1 assert arg1 == s.TLS   [C12.wrap] [C14.tls]
 //@   at call newGRPCStdioServer#1 assert arg1 == s.Stdout && arg2 == s.Stderr   [C11.wire-g]
 //@   after call newGRPCStdioServer#1 bind stdsrv := ret
 //@   at call plugin.RegisterGRPCStdioServer#1 assert arg0 == iface(s.server) && arg1 == iface(stdsrv)   [C11.wire-g]
